@@ -332,8 +332,8 @@ let scopes_field dom (a : ('k, 'p) automaton) : sx list =
   | Panic _ -> [A "scopes"; A "panic"]
   | OutOfFuel -> [A "scopes"; A "out-of-fuel"]
 
-(* add_pattern's key list for each compiled pattern, recomputed by the model and compared, order
-   included, with what every accepting state of the dump records: the (state, pattern) pairs that differ *)
+(* add_pattern's key list for each compiled pattern, recomputed by the model and compared, as sets,
+   with what every accepting state of the dump records: the (state, pattern) pairs that differ *)
 let mkeys_field dom (a : ('k, 'p) automaton) (extras : 'k list list) (css : ('k, 'p) constraint0 list list) (pres : bool list) : sx list =
   let pats = List.mapi (fun i cs ->
       if List.nth pres i then Some ((match List.nth_opt extras i with Some e -> e | None -> []), cs) else None) css in
